@@ -306,10 +306,14 @@ class Converter:
             out.sort()
             return (sum(e for _, e in out), out)
         terms = [self.mono_term(m, c) for m, c in sorted(p.t.items(), key=key)]
-        r = terms[0]
-        for x in terms[1:]:
-            r = r + x
-        return r
+        if len(terms) == 1:
+            return terms[0]
+        if len(terms) <= 8:
+            r = terms[0]
+            for x in terms[1:]:
+                r = r + x
+            return r
+        return z3.Sum(terms)          # flat n-ary sum (a left-nested chain of thousands of monomials is too deep)
 
     def skeleton(self, full):
         if not self.subst:
@@ -563,6 +567,8 @@ def _conv_nonpoly(self, t):
 
 def _nodiv(t, inv, memo):
     """x / d -> x * w(d) with one fresh w per distinct denominator d"""
+    if not sc._has_div(t):
+        return t
     key = t.get_id()
     hit = memo.get(key)
     if hit is not None:
@@ -653,13 +659,9 @@ def check_identity(ctx, a, b, hyp=()):
     t0 = time.time()
     try:
         inv, memo = {}, {}
-        a2, b2 = _nodiv(a, inv, memo), _nodiv(b, inv, memo)
         r = z3.unknown
-        # z3's rewriter in sum-of-monomials mode: a polynomial identity normalises to 0 = 0 (the inverses w are
-        # plain variables here, so this only settles identities that do not need d * w == 1)
-        zr = z3.simplify(a2 - b2, som=True)
-        if z3.is_rational_value(zr) and zr.numerator_as_long() == 0:
-            return True
+        if hyp:       # the converter met divisions by variables (else there is none to remove)
+            a2, b2 = _nodiv(a, inv, memo), _nodiv(b, inv, memo)
         if inv:
             try:
                 if _laurent_certificate(a2 - b2, inv):
